@@ -133,6 +133,11 @@ fn runtime() -> Runtime<NoCtx> {
         fn pure_char(x: char) -> char { ev(format!("pure_char {:#x}", x as u32)); x }
 
         /// seven arguments of mixed width (argument position / register assignment)
+        // registered methods with a visible effect: `recv.msub(y)` logs receiver and argument and returns recv - y (wrapping)
+        impl i32 { fn msub(self, y: i32) -> i32 { ev(format!("msub_i32 {:#x} {:#x}", self as u32, y as u32)); self.wrapping_sub(y) } }
+        impl u8 { fn msub(self, y: u8) -> u8 { ev(format!("msub_u8 {:#x} {:#x}", self, y)); self.wrapping_sub(y) } }
+        impl i64 { fn msub(self, y: i64) -> i64 { ev(format!("msub_i64 {:#x} {:#x}", self as u64, y as u64)); self.wrapping_sub(y) } }
+        impl u16 { fn msub(self, y: u16) -> u16 { ev(format!("msub_u16 {:#x} {:#x}", self, y)); self.wrapping_sub(y) } }
         fn emit7(a: u8, b: i64, c: u16, d: i32, e: u64, f: i8, g: u32) {
             ev(format!("emit7 {:#x} {:#x} {:#x} {:#x} {:#x} {:#x} {:#x}", a, b as u64, c, d as u32, e, f as u8, g));
         }
